@@ -256,13 +256,14 @@ impl<'a> Exec<'a> {
                     *phase = 1;
                 }
                 if *phase == 1 {
-                    if let Some(i) = spawn {
-                        return i;
-                    }
+                    // the other calls one after the other: each runs as far as it gets before the next starts
                     if let Some(i) = task0 {
                         return i;
                     }
                     if let Some(i) = en.iter().position(|c| matches!(c, Choice::Req(r) if !held.contains(r))) {
+                        return i;
+                    }
+                    if let Some(i) = spawn {
                         return i;
                     }
                     *phase = 2;
